@@ -158,7 +158,7 @@ class small_stack:
         import inspect
 
         depth = len(inspect.stack(0))
-        sys.setrecursionlimit(max(depth + self.extra, 30))
+        sys.setrecursionlimit(depth + max(self.extra, 3))
         return self
 
     def restore(self):
